@@ -28,13 +28,13 @@ func spaces(thorough bool) []space {
 		return []space{
 			{"ascii", strings.Split(`* ? [ ] ^ - \ a / b`, " "), 6, strings.Split("a b / -", " "), 5},
 			{"meta-names", strings.Split(`* ? [ ] ^ - \ a /`, " "), 6, strings.Split(`a b / - ^ ] \ * ? [`, " "), 3},
-			{"utf8", strings.Split(`* ? [ ] ^ - \ é €`, " "), 6, strings.Split("é € a", " "), 3},
+			{"utf8", strings.Split("* ? [ ] ^ - \\ é € \ufffd", " "), 6, strings.Split("é € a \ufffd", " "), 3},
 		}
 	}
 	return []space{
 		{"ascii", strings.Split(`* ? [ ] ^ - \ a /`, " "), 5, strings.Split("a b / -", " "), 4},
 		{"meta-names", strings.Split(`* ? [ ] ^ - \ a`, " "), 5, strings.Split(`a b / - ^ ] \ * ? [`, " "), 3},
-		{"utf8", strings.Split(`* ? [ ] ^ - \ é €`, " "), 5, strings.Split("é € a", " "), 3},
+		{"utf8", strings.Split("* ? [ ] ^ - \\ é € \ufffd", " "), 5, strings.Split("é € a \ufffd", " "), 3},
 	}
 }
 
